@@ -459,8 +459,15 @@ def check_decoder_prints(rep, prog, rule="C09.R2.stdout-discipline"):
         if tq not in decode_side:
             # CLI-side code: its output is constrained by the event rules above where it runs inside a per-file loop
             continue
-        if q in (PT + "processId", PT + "parsePEL") and is_exit:
-            continue      # argument validation / the documented -f exit path (exit_on_error), see C05
+        if (q in (PT + "processId", PT + "parsePEL") or (tq == PT + "parsePEL" and q != tq)) and is_exit:
+            # argument validation / the documented -f exit path (exit_on_error), see C05: that rule interprets parsePEL
+            # together with the helper functions nested in it and checks every exit executed there
+            continue
+        if is_exit:
+            from .c05 import parsepel_exit_helpers
+            hq, hnodes = parsepel_exit_helpers(prog)
+            if tq in hq and id(cs.node) in hnodes:
+                continue            # the same exit_on_error path, written in a helper only parsePEL calls
         n += 1
         dead = q in interpreted_funcs and id(cs.node) not in executed_nodes
         kind = "process exit" if is_exit else "stdout write"
